@@ -523,11 +523,13 @@ static int elias_case(ctx *c, int delta, unsigned prefix, unsigned n,
                 name, w.bitPos, varintBitWriterBytes(&w), total);
         return 0;
     }
-    /* bit i of the stream is bit (7 - i%8) of byte i/8 (MSB first); everything
-     * after the last code bit inside the capacity stays zero */
-    for (size_t i = 0; i < (size_t)ELIAS_CAP * 8; i++) {
+    /* bit i of the stream is bit (7 - i%8) of byte i/8 (MSB first). Only the
+     * code bits are compared: what the writer leaves in the padding bits of
+     * the last byte and in the bytes behind it is not specified (a writer that
+     * does not pre-clear its buffer is as correct as one that does). */
+    for (size_t i = 0; i < total; i++) {
         int bit = (buf[i / 8] >> (7 - (i % 8))) & 1;
-        int exp = i < total ? (want[i] == '1') : 0;
+        int exp = (want[i] == '1');
         if (bit != exp) {
             snprintf(site, sizeof(site), "%s.bytes", name);
             vf_fail(c->rep, site, "bytes",
@@ -565,9 +567,9 @@ static int elias_case(ctx *c, int delta, unsigned prefix, unsigned n,
                     meta.totalBits, meta.encodedBytes, abits);
             return 0;
         }
-        for (size_t i = 0; i < bytes * 8; i++) {
+        for (size_t i = 0; i < abits; i++) {
             int bit = (abuf[i / 8] >> (7 - (i % 8))) & 1;
-            int exp = i < abits ? (want[prefix + i] == '1') : 0;
+            int exp = (want[prefix + i] == '1');
             if (bit != exp) {
                 snprintf(site, sizeof(site), "%s.bytes", name);
                 vf_fail(c->rep, site, "bytes",
